@@ -128,6 +128,9 @@ def peel_result(X):
             X = X[1]
         elif X[0] == "call" and X[1].rsplit("::", 1)[-1] in ("ok_or", "ok_or_else", "map_err") and X[2]:
             X = X[2][0]
+        elif X[0] == "call" and X[1].rsplit("::", 1)[-1] in ("map", "copied", "cloned", "as_ref", "as_deref", "inspect") and X[2] \
+                and ("option::Option" in X[1] or "result::Result" in X[1]):
+            X = X[2][0]       # Some/Ok exactly when the receiver is
         else:
             break
     return X
